@@ -22,3 +22,5 @@ import Reamber.Props.C09
 #print axioms Reamber.Pipeline.o2j_first_tempo_at_zero
 #print axioms Reamber.Pipeline.content_carried
 #print axioms Reamber.Pipeline.into_qua_objects_partial
+#print axioms Reamber.Pipeline.contentOk_abstract
+#print axioms Reamber.Pipeline.convert_write_qua_objects_partial
